@@ -105,6 +105,10 @@ def main(ctx: Ctx) -> int:
         for ci2 in distinct[: (1 if ctx.quick else 4)]:
             groups.append([lst[0], ci2])
     cov["same_reaction_pairs"] = len(groups) - len(cases)
+    # second pass: the first groups again at the END of the run (same process): whatever the cases in between left behind -- memoised
+    # expressions, class-level tables -- must not change what they render to
+    groups += [list(g) for g in groups[:30]]
+    cov["groups_rendered_again_at_the_end"] = 30
     traces = []
     mark_of = {("kida", 1): "CR", ("kida", 2): "Photon", ("umist", "CP"): "CRP", ("umist", "CR"): "CRPHOT", ("umist", "PH"): "PHOTON",
                ("leeds", 2): "CRP", ("leeds", 3): "CRPHOT", ("leeds", 4): "PHOTON"}
